@@ -81,6 +81,8 @@ var vfHostileStrings = []string{
 	"2001-01-01", "12:30:45", "<<", "=", "- x", "a: b", "#c", " lead", "trail ", "multi\nline\n", "tab\there",
 	"é", "日本", "quote\"d", "it's", "{a: b}", "[1, 2]", "*alias", "&anchor", "!tag", "%dir", "@at", "`tick`",
 	"back\\slash", " ", "very " + strings.Repeat("long ", 40),
+	// multi-line values pasted with an empty line or a tab in front (keys, certificate chains)
+	"\n-----BEGIN X-----\nabc\n-----END X-----\n", "\n\nx\ny", "\t-----BEGIN X-----\n\tabc\n", "\tx\ny",
 	// shapes of upstream lines with a damaged domain part
 	"[/]quic://dns.example.net", "[//]1.1.1.1", "[/", "[/a/", "[/a/]", "[/]", "quic://", "[/x/]quic://h.example:1", "]/[",
 }
@@ -735,6 +737,14 @@ func vfToNode(t *rapid.T, v any, st vfTextStyle, label string, depth int) (n *ya
 		}
 
 		return n, nil
+	case string:
+		if sn, ok := vfEncodable(x).(*yaml.Node); ok {
+			return sn, nil
+		}
+		n = &yaml.Node{}
+		err = n.Encode(v)
+
+		return n, err
 	case time.Time:
 		// Node.Encode would produce a quoted (string) scalar here.
 		return &yaml.Node{Kind: yaml.ScalarNode, Tag: "!!timestamp", Value: x.Format(time.RFC3339Nano)}, nil
@@ -749,7 +759,7 @@ func vfToNode(t *rapid.T, v any, st vfTextStyle, label string, depth int) (n *ya
 		return n, err
 	default:
 		n = &yaml.Node{}
-		err = n.Encode(v)
+		err = n.Encode(vfEncodable(v))
 
 		return n, err
 	}
@@ -784,9 +794,45 @@ func vfHasIntegralFloat(v any) (ok bool) {
 }
 
 // vfText serialises the document.
+// vfEncodable returns a copy of the tree in which the strings that the YAML
+// library does not write the way they read back (several lines, beginning with
+// a line break or a tab) are nodes in the double-quoted style.  The harness
+// needs valid text for what it generated; it says nothing about the code.
+func vfEncodable(v any) any {
+	switch x := v.(type) {
+	case string:
+		if strings.Contains(x, "\n") && (x[0] == '\n' || x[0] == '\t') {
+			return &yaml.Node{Kind: yaml.ScalarNode, Tag: "!!str", Value: x, Style: yaml.DoubleQuotedStyle}
+		}
+	case vfMap:
+		c := make(vfMap, len(x))
+		for k, e := range x {
+			c[k] = vfEncodable(e)
+		}
+
+		return c
+	case vfList:
+		c := make(vfList, len(x))
+		for i, e := range x {
+			c[i] = vfEncodable(e)
+		}
+
+		return c
+	case map[any]any:
+		c := make(map[any]any, len(x))
+		for k, e := range x {
+			c[k] = vfEncodable(e)
+		}
+
+		return c
+	}
+
+	return v
+}
+
 func vfText(t *rapid.T, doc vfMap, st vfTextStyle) (b []byte, err error) {
 	if !st.Shuffle && !st.Flow && !vfHasIntegralFloat(doc) {
-		b, err = yaml.Marshal(doc)
+		b, err = yaml.Marshal(vfEncodable(doc))
 	} else {
 		var n *yaml.Node
 		n, err = vfToNode(t, doc, st, "doc", 0)
@@ -799,7 +845,7 @@ func vfText(t *rapid.T, doc vfMap, st vfTextStyle) (b []byte, err error) {
 			want, werr := vfNormalize(doc)
 			got, gerr := vfDecode(b)
 			if werr != nil || gerr != nil || vfDiff(want, got, "") != "" {
-				b, err = yaml.Marshal(doc)
+				b, err = yaml.Marshal(vfEncodable(doc))
 			}
 		}
 	}
